@@ -719,6 +719,9 @@ func (w *World) checkRawRequestDelivery(conv *conversation, frames []convFrame) 
 	sent := map[int64][]wf{}
 	cur := map[int64][]byte{}
 	curLen := map[int64]int{}
+	tagOf := map[int64]string{}
+	halved := map[int64]bool{}
+	halfMid := map[int64]bool{}
 	for _, cf := range frames {
 		id := cf.f.StreamId
 		switch fr := cf.f.Frame.(type) {
@@ -741,8 +744,30 @@ func (w *World) checkRawRequestDelivery(conv *conversation, frames []convFrame) 
 				}
 			}
 		case *tunnelpb.ClientToServer_NewStream:
+			if md := fr.NewStream.RequestHeaders; md != nil && tagOf[id] == "" {
+				if v := md.Md["x-rpc"]; v != nil && len(v.Val) > 0 {
+					tagOf[id] = v.Val[0]
+				}
+			}
+		case *tunnelpb.ClientToServer_HalfClose:
+			if _, pending := cur[id]; pending && !halved[id] {
+				halfMid[id] = true
+			}
+			halved[id] = true
 		default:
 		}
+	}
+	// a half-close in the middle of a message is a stream-level violation: the handler must not be
+	// told that the request stream ended normally
+	for id := range halfMid {
+		for _, r := range w.Env.Log.Records() {
+			if tagOf[id] != "" && r.RPC == tagOf[id] && r.Side == "handler" && r.K == "recv" && r.RetSeq != 0 && r.EOF {
+				w.Violate("C09", "half-close-inside-message-reported-as-end-of-stream", "stream %d (%s) was half-closed in the middle of a request message, its handler's receive reported a normal end of stream", id, r.RPC)
+				w.Violate("C01", "truncated-message-reported-as-end-of-stream", "stream %d (%s) was half-closed in the middle of a request message, its handler's receive reported a normal end of stream", id, r.RPC)
+				break
+			}
+		}
+		w.Stat("raw_half_close_inside_message", 1)
 	}
 	byTag := map[string]*convStream{}
 	for _, s := range conv.streams {
